@@ -57,6 +57,15 @@ PAIR_ALPHABET = [[1, 1], [1, 2], [2, 1], [None, 2], ['a', 1]]
 NESTED_ALPHABET = [1, [2, [3, None]], [], 'ab', [[1]]]
 DICT_KEYS = ['a', 'b', 1, None]
 DICT_VALUES = [1, None, 'a']
+# dictionaries as ELEMENTS of hash-based functions: D1 = D2 and N1 = N2 as values, built in a different key order
+D1, D2, D3 = {'a': 1, 'b': 2}, {'b': 2, 'a': 1}, {'a': 1, 'b': 3}
+N1, N2 = {'k': {'x': 1, 'y': 2}, 'n': None}, {'n': None, 'k': {'y': 2, 'x': 1}}
+DICT_ELEMENTS = [D1, D2, D3, N1, N2, 1]
+DICT_EXPRS = {      # the same values spelled as literals / persistent updates / merges
+    '{a => 1, b => 2}': D1, '{b => 2, a => 1}': D2, '{a => 1}.set(b, 2)': D1, '{b => 2}.set(a, 1)': D2,
+    '({b => 2} + {a => 1})': D2, '{a => 1, b => 3}': D3, '{k => {x => 1, y => 2}, n => null}': N1,
+    '{n => null, k => {y => 2, x => 1}}': N2,
+}
 MERGE_VALUES = [1, [1, 2], [2, 3], {'x': 1}, {'y': 2}, {'x': [1]}, {'x': {'z': 1}}]
 
 
@@ -104,7 +113,7 @@ def F(name, tmpl, model, recv='iterable', out=None, fn=None, unordered=False, pr
 
 KIND_TABLE = {'lam': M.UNARY, 'pred': M.UNARY, 'key': M.UNARY, 'agg': M.UNARY, 'gp': M.UNARY, 'gf': M.UNARY, 'gs': M.UNARY,
               'lam2': M.BINARY, 'pred2': M.BINARY, 'sel2': M.BINARY,
-              'val': M.VALUES, 'val2': M.VALUES, 'kv': M.VALUES, 'oth': M.OTHERS, 'tree': M.TREES}
+              'dx': DICT_EXPRS, 'val': M.VALUES, 'val2': M.VALUES, 'kv': M.VALUES, 'oth': M.OTHERS, 'tree': M.TREES}
 
 
 def resolve(kind, text):
@@ -134,6 +143,7 @@ FULL = {
     'gf': ['$ + 1', '($ + 1) mod 3'],
     'gs': ['[$, $]', '$ * 10'],
     'tree': sorted(M.TREES),
+    'dx': list(DICT_EXPRS),
 }
 REDUCED = {       # pipelines; the quick tier uses the first entry only (one instance per call form)
     'int': ['1', '0', '2'], 'lam': ['[$, $]', '$ = null', '$ > 1'], 'pred': ['$ > 1', '$ = null'], 'lam2': ['$1 + $2'],
@@ -362,6 +372,30 @@ F('remove', '{c}.remove({v}, {w})', M.set_remove, recv='set', fn='set_remove', v
 F('isSet-set', '[isSet({c}), isList({c}), isDict({c})]', lambda s: [M.is_set('set'), M.is_list('set'), M.is_dict('set')], recv='set',
   fn='is_set')
 
+# -- dictionaries as elements of the hash-based functions (equal values, different key insertion order) ----------
+for _recv, _c in (('dictseq', '{c}'), ('none', '[{x}, {y}]')):
+    _p = {} if _recv == 'dictseq' else {'x': 'dx', 'y': 'dx'}
+    _w = (lambda f: f) if _recv == 'dictseq' else (lambda f: lambda x, y: f([x, y]))
+    _s = '' if _recv == 'dictseq' else '-literal'
+    F('distinct-dicts' + _s, _c + '.distinct()', _w(M.distinct), recv=_recv, fn='distinct', **_p)
+    F('groupBy-dicts' + _s, _c + '.groupBy($)', _w(lambda c: M.group_by(c, M.UNARY['$'])), recv=_recv, fn='group_by', **_p)
+    F('toSet-dicts' + _s, _c + '.toSet().len()', _w(lambda c: len(M.uniq(c))), recv=_recv, fn='to_set', **_p)
+    F('toDict-dicts' + _s, _c + '.toDict($, 1).len()', _w(lambda c: len(M.uniq(c))), recv=_recv, fn='to_dict', **_p)
+    F('indexOf-dicts' + _s, _c + '.indexOf({a => 1, b => 2})', _w(lambda c: M.index_of(c, D1)), recv=_recv, fn='index_of', **_p)
+F('set-contains-dicts', '{c}.toSet().contains({x})', lambda c, x: M.member(x, c), recv='dictseq', fn='contains', x='dx')
+F('in-set-dicts', '{x} in {c}.toSet()', lambda c, x: M.member(x, c), recv='dictseq', fn='in_', x='dx')
+F('set-ctor-dicts', 'set({x}, {y}).len()', lambda x, y: len(M.uniq([x, y])), recv='none', fn='set_', x='dx', y='dx')
+F('set-equal-dicts', '[set({x}) = set({y}), {x} = {y}]', lambda x, y: [M.uniq_equal([x], [y]), M.eq(x, y)], recv='none',
+  fn='to_set', x='dx', y='dx')
+F('dict-items-dicts', 'dict([[{x}, 1], [{y}, 2]]).len()', lambda x, y: len(M.uniq([x, y])), recv='none', fn='dict__',
+  x='dx', y='dx')
+for _n, _m in (('union', M.uniq_union), ('intersect', M.uniq_intersect), ('difference', M.uniq_difference),
+               ('symmetricDifference', M.uniq_symmetric_difference)):
+    F(_n + '-dicts', '{c}.toSet().%s({d}.toSet()).len()' % _n, (lambda m: lambda a, b: len(m(a, b)))(_m), recv='dictseq2',
+      fn='symmetric_difference' if _n == 'symmetricDifference' else _n)
+F('set-compare-dicts', '[{c}.toSet() = {d}.toSet(), {c}.toSet() <= {d}.toSet(), {c}.toSet() + {d}.toSet() = {d}.toSet()]',
+  lambda a, b: [M.uniq_equal(a, b), M.uniq_subset(a, b), M.uniq_subset(a, b)], recv='dictseq2', fn='set_lte')
+
 # -- system.py ----------------------------------------------------------------
 F('unpack', '{c}.unpack() -> [$1, $2, $3, $4, $5]', lambda c: M.unpack(c, [], 5), pipe=False)
 F('unpack-1', '{c}.unpack(a) -> [$a]', lambda c: M.unpack(c, ['a']), fn='unpack', pipe=False)
@@ -419,6 +453,10 @@ def units(form, tier):
         return [(p, s) for s in seqs_over(PAIR_ALPHABET, T['family_len'] + 1) for p in ('tuple', 'iter')]
     if r == 'nested':
         return [(p, s) for s in seqs_over(NESTED_ALPHABET, T['family_len']) for p in ('tuple', 'iter')]
+    if r == 'dictseq':
+        return [(p, s) for s in seqs_over(DICT_ELEMENTS, T['family_len']) for p in ('tuple', 'iter')]
+    if r == 'dictseq2':
+        return [('tuple', a, b) for a in seqs_over(DICT_ELEMENTS, T['family_len']) for b in seqs_over(DICT_ELEMENTS, 1)]
     if r == 'set':
         return [('set', s) for s in subsets(SET_ALPHABET, 5)]
     if r == 'set2':
@@ -519,6 +557,15 @@ def inputs(form, unit):
     return variables, c, d
 
 
+HASH_KEY = 'equal dictionaries hash differently (key insertion order): hash-based functions disagree with ='
+
+
+def hash_depends_on_key_order():
+    """Diagnosis only: one root cause behind every hash-based function failing on equal dictionaries."""
+    a, b = yutils.convert_input_data(N1), yutils.convert_input_data(N2)
+    return a == b and hash(a) != hash(b)
+
+
 def run_case(res, form, args, unit):
     """Execute and judge one single-operator case."""
     text = form.text(args)
@@ -539,7 +586,8 @@ def run_case(res, form, args, unit):
     res.nontrivial += 1
     res.outcomes[label(obs)] += 1
     if not agree(obs, exp, form.unordered):
-        res.fail('model-mismatch fn=%s recv=%s' % (form.fn, unit[0]),
+        res.fail(HASH_KEY if '-dicts' in form.name and hash_depends_on_key_order() else
+                 'model-mismatch fn=%s recv=%s' % (form.fn, unit[0]),
                  {'kind': 'single', 'form': form.name, 'args': args, 'unit': list(unit)},
                  '%s: observed %r expected %r' % (text, obs, exp))
 
